@@ -207,6 +207,14 @@ def _resolve_identifier(
         if isinstance(from_expression, Identifier):
             set_resolution_context(from_expression, scope_chain)
             source = from_expression.value
+            # What the source set contains belongs to the place where the
+            # source is defined, not to the inherit clause that mentions it
+            # (`s = { inherit x; }` refers to the `x` around `s`).
+            defined_in = get_resolution_context(source) if isinstance(
+                source, NixExpression
+            ) else None
+            if defined_in is not None:
+                scope_chain = defined_in.scopes
 
         if isinstance(source, Scope):
             new_chain = tuple(list(scope_chain) + [source])
